@@ -369,6 +369,26 @@ pub proof fn lemma_mod_sign(g: int, q: int)
     }
 }
 
+
+/// the value of the top part grows by one digit: dle(s[j..]) == s[j] + 10 * dle(s[j+1..])
+pub proof fn lemma_dle_top_step(s: Seq<u8>, j: int)
+    requires 0 <= j < s.len()
+    ensures dle(s.subrange(j, s.len() as int)) == s[j] as int + 10 * dle(s.subrange(j + 1, s.len() as int))
+{
+    let t = s.subrange(j, s.len() as int);
+    assert(t[0] == s[j]);
+    assert(t.drop_first() =~= s.subrange(j + 1, s.len() as int));
+}
+/// a prefix of valid digits is below its power of ten
+pub proof fn lemma_dle_prefix_bounds(s: Seq<u8>, j: int)
+    requires 0 <= j <= s.len(), valid_digits(s)
+    ensures 0 <= dle(s.subrange(0, j)) < pow10(j), valid_digits(s.subrange(0, j))
+{
+    let t = s.subrange(0, j);
+    assert forall|i: int| 0 <= i < t.len() implies t[i] <= 9 by { assert(t[i] == s[i]); }
+    lemma_dle_bounds(t);
+}
+
 pub proof fn lemma_dbe_is_dle_rev(s: Seq<u8>)
     ensures dbe(s) == dle(s.reverse())
     decreases s.len()
